@@ -32,8 +32,9 @@ static std::optional<Failure> check_one(Run &R, const Bytes &d) {
     R.nontrivial(hashs(d));
     if (!ascii) R.sample("U-label", show(d) + " -> " + af, 3);
     // the local part must not matter: short, dotted, and long dotted ones (the last dot of the *address* may sit in the local part)
-    static const Bytes LOCALS[] = {"x", "first.last", "a.b.c.d.e.f.g.h.i.j.k.l.m.n.o.p.q.r.s.t.u.v.w.x.y.z.0.1.2.3.4.5", "building.intranet-mailhost.0123456789.abcdefghij.klmnopqrst.uv"};
-    Bytes addr = LOCALS[(hashs(d) >> 7) & 3] + "@" + d;
+    static const Bytes LOCALS[] = {"x", "first.last", "a.b.c.d.e.f.g.h.i.j.k.l.m.n.o.p.q.r.s.t.u.v.w.x.y.z.0.1.2.3.4.5", "building.intranet-mailhost.0123456789.abcdefghij.klmnopqrst.uv",
+                                   "\"abuse@corp.net\"", "\"a.b\".c", "x", "\"@\".\"q@r.museum\""};   // quoted '@' and dots: the class is that of the text behind the LAST '@'
+    Bytes addr = LOCALS[(hashs(d) >> 7) & 7] + "@" + d;
     for (int m = ascii ? 0 : 3; m < 4; m++) {
         v_outcome o = email_direct(A, TB, m, addr, 1); R.eval();
         if (m == 3 && o.rc == -C->E_IDN) { R.count("6531-idn-error-skipped"); continue; }
